@@ -65,6 +65,14 @@ package receiver
 //      (seed ++ exactly the bytes written to it) equals the 16 bytes read
 //      from the connection after the token stream; otherwise an error.
 // C04: the pending file created here is cleaned up on every return path.
+// C02 (receiver half): a literal token of n bytes writes exactly the n bytes
+// that follow it on the wire; a block reference t writes exactly the bytes
+// [t*BlockLength, +len) of the basis file, len being the remainder length
+// for the last block and the block length otherwise.
+//@ func (*receiver.Transfer).receiveData
+//@   at[C02] (io.Writer).Write@1: assert [literal-run-written] token > 0 && len(arg0) == token && base(arg0) == base(data) && off(arg0) == off(data)
+//@   at[C02] (*os.File).ReadAt: assert [block-offset-and-length] 0 <= token && arg2 == token * sh.BlockLength && len(arg1) == ite(token == sh.ChecksumCount - 1 && sh.RemainderLength != 0, sh.RemainderLength, sh.BlockLength)
+//@   at[C02] (io.Writer).Write@2: assert [block-bytes-written] isFileSeg(arg0, localFile, token * sh.BlockLength) && len(arg0) == ite(token == sh.ChecksumCount - 1 && sh.RemainderLength != 0, sh.RemainderLength, sh.BlockLength)
 //@ func (*receiver.Transfer).receiveData
 //@   at[C03] (*github.com/google/renameio/v2.PendingFile).CloseAtomicallyReplace: assert [local-sum-is-md4-of-seed-and-written-bytes] bid(localSum) == md4Of(seededAcc(select(ghost.acc, out), rt.Seed))
 //@   at[C03] (*github.com/google/renameio/v2.PendingFile).CloseAtomicallyReplace: assert [sums-compared-equal] bid(localSum) == bid(remoteSum)
